@@ -6,67 +6,67 @@ CLAIMS = {
  # id: (category, technique, text, note, design_ref)
  "C01": ("exploration", "state-diff monitor on simulated tag memory: round trip through a fresh nfcpy reader AND an independent reference reader; capacity vs reference layout calculator; command-log oracle for oversize writes",
          "Real tag classes under a real ContactlessFrontend write/read simulated T1T/T2T/T3T/T4T tags and nfcpy's own Type 3 emulation over generated layouts (reserved ranges, NULL/control TLVs, Nbr/Nbw/Nmaxb, MLe/MLc/mapping versions) at boundary lengths; small layouts exhaustively over every length. Held = no oracle fired on the cases run.",
-         "trusted: tag memory models vf/sim/t*.py and reference readers vf/ref/*_layout.py, t3_attr.py, t4_files.py (written from the NFC Forum specs)", "DESIGN.md 3/C01"),
+         "trusted: tag memory models vf/sim/t*.py and reference readers vf/ref/*_layout.py, t3_attr.py, t4_files.py (written from the NFC Forum specs)", "DESIGN.md 3/C01, 7.2-7.6"),
  "C02": ("fault_enumeration", "crash-point enumeration: the simulated tag leaves the field after the k-th state-changing command for every k of every write; fresh-reader outcome oracle",
          "For every generated write the uninterrupted run gives n state-changing commands; the write is repeated with the field cut after k = 0..n and a fresh nfcpy reader plus the reference reader classify the memory: old / empty / not readable / new are accepted, anything else is a violation.",
-         "trusted: tag models apply one command atomically (no tearing inside a command)", "DESIGN.md 3/C02"),
+         "trusted: tag models apply one command atomically (no tearing inside a command)", "DESIGN.md 3/C02, 7.2-7.6"),
  "C03": ("exploration", "byte-wise memory diff and write-command log monitor on simulated tags (one-way lock/OTP bits modelled)",
          "After every write/format on generated layouts the simulated memory is diffed against the allowed set (NDEF TLV..end of data area minus reserved ranges / blocks 0..Nmaxb / the NDEF file) and every write command is checked to address the allowed area.",
-         "trusted: tag memory models; format() of products that create the mapping is judged by the documented boundary", "DESIGN.md 3/C03"),
+         "trusted: tag memory models; format() of products that create the mapping is judged by the documented boundary", "DESIGN.md 3/C03, 7.2-7.6"),
  "C04": ("fault_enumeration", "lock-step history oracle over real nfc.dep Initiator/Target with per-frame fault scripts on a virtual clock; wire monitor (LEN vs LR, start byte); recovery-clause checker",
          "Real Initiator and Target (real activation) exchange id-carrying payloads over a lock-step air; fault scripts {deliver, lose, corrupt} are enumerated exhaustively up to k faults over the frames that occur and sampled beyond; oracles: exactly-once in-order delivery, only CommunicationError on failure, frame length <= LR, single fault per step recovered.",
-         "trusted: vf/sim/air.py (hand-off, virtual clock, independent wire parser)", "DESIGN.md 3/C04"),
+         "trusted: vf/sim/air.py (hand-off, virtual clock, independent wire parser)", "DESIGN.md 3/C04, 7.2-7.6"),
  "C05": ("exploration", "history oracle + sliding-window reference model over wire PDUs; bounded-exhaustive lock-step histories, random walks, thread stress with sys.monitoring yield injection; icontract PDU-length postcondition",
          "Two real LLCs: (1) deterministic lock-step histories (bounded exhaustive depth 6/8 + long random walks) and (2) real run loops with blocking sender/receiver threads under injected yields. Oracles: recv list is a prefix of (at quiescence equal to) the accepted sends, window model on the wire (N(S), N(R), outstanding <= RW from CONNECT/CC), EMSGSIZE.",
-         "trusted: vf/ref/window_model.py, vf/ref/llcp_ref.py; thread schedules are sampled, not enumerated", "DESIGN.md 3/C05"),
+         "trusted: vf/ref/window_model.py, vf/ref/llcp_ref.py; thread schedules are sampled, not enumerated", "DESIGN.md 3/C05, 7.2-7.6"),
  "C06": ("exploration", "application-boundary history oracle (unique ids, octet equality, exactly once) over real SNEP/handover clients and servers on real LLC run loops and on the complete connect() stack over an in-memory UDP net",
          "Messages with unique ids at sizes around k*MIU+-7 are put/got/handed over across MIU/RW/aggregation/role configurations; servers record raw octets at the documented override points; over-size requests must be refused and never delivered.",
-         "trusted: vf/sim/llcpair.py, vf/sim/fakenet.py; a time-out alone is inconclusive (structural wire-idle verdicts only)", "DESIGN.md 3/C06"),
+         "trusted: vf/sim/llcpair.py, vf/sim/fakenet.py; a time-out alone is inconclusive (structural wire-idle verdicts only)", "DESIGN.md 3/C06, 7.2-7.6"),
  "C07": ("exploration", "escape monitor (documented exception types only), threading.excepthook monitor, structural hang detector; exhaustive short frames + grammar-aware mutation at every protocol position",
          "Hostile bytes are fed to the real decoders (exhaustive <=2/3 bytes, mutated valid PDUs, nested AGF to the frame limit) and to live stacks at every position where the peer speaks (NFC-DEP both roles, general bytes, LLC run loop with servers and blocked clients, SNEP/handover fragments, Type 3 emulation, complete connect paths).",
-         "trusted: scripted peers in vf/props/c07.py; hang verdicts are structural (no progress + untimed wait), wall-clock watchdog = inconclusive", "DESIGN.md 3/C07"),
+         "trusted: scripted peers in vf/props/c07.py; hang verdicts are structural (no progress + untimed wait), wall-clock watchdog = inconclusive", "DESIGN.md 3/C07, 7.2-7.6"),
  "C08": ("exploration", "outcome/command-bound/non-interference monitors on simulated tags with arbitrary images, adversarial responses and tag-stops-answering at every command",
          "tag activation and tag.ndef evaluation run against random and mutated images, activation-response variants and adversarial well-framed responses; oracles: no exception, bounded commands, length <= capacity, octets do not depend on bytes outside the declared data area.",
-         "trusted: tag models and reference readers", "DESIGN.md 3/C08"),
+         "trusted: tag models and reference readers", "DESIGN.md 3/C08, 7.2-7.6"),
  "C09": ("exploration", "structural quiescence/hang detector (per-thread progress + untimed-wait classifier) over real run loops with termination at every exchange k x cause, directed preemption and sys.monitoring yield injection",
          "Application threads blocked in every socket call kind plus SNEP/handover servers; the link is ended at exchange k by each cause (local, remote, disruption, IOError with/without failing deactivate) over a PDU pipe, real nfc.dep and the full connect() path; afterwards every call kind is issued on old and new sockets. Verdict: quiescent thread in an untimed wait inside nfc = violation; outcomes must be a value or nfc.llcp.Error.",
-         "trusted: vf/core/watch.py classifier (reads CPython frame state); schedules sampled + one directed preemption per case", "DESIGN.md 3/C09"),
+         "trusted: vf/core/watch.py classifier (reads CPython frame state); schedules sampled + one directed preemption per case", "DESIGN.md 3/C09, 7.2-7.6"),
  "C10": ("exploration", "wire monitor on every transmitted frame (information field vs the MIU the receiver announced, I/UI payload vs connection/link MIU) and transparency monitor (collected == dispatched leaf PDUs); icontract PDU-length postcondition",
          "Queue-filling histories (many sockets, bursts, hundreds of pending SDREQ/SDRES, DM/FRMR/RR traffic) on two real LLCs in lock-step across remote MIU values (every value 128..2175 in thorough) with aggregation on/off.",
-         "trusted: vf/ref/llcp_ref.py (independent decoder used for the verdict)", "DESIGN.md 3/C10"),
+         "trusted: vf/ref/llcp_ref.py (independent decoder used for the verdict)", "DESIGN.md 3/C10, 7.2-7.6"),
  "C11": ("exploration",
          "runtime oracles on real pdu.encode/decode: round-trip, icontract length postcondition, idempotence, differential vs independent decoder, window metamorphic test",
          "Every generated PDU and byte string is run through the real codec; oracles compare public field values, the reported length, "
          "an independent reader of the LLCP frame format and the result of decoding the same bytes inside larger buffers/aggregates. "
          "Exhaustive for strings of <=2 bytes (quick) / <=3 bytes (thorough), sampled beyond; held means no oracle fired on what was run.",
-         "trusted: vf/ref/llcp_ref.py (independent LLCP reader); empty vs absent SN/ECPK/RN treated as equal", "DESIGN.md 3/C11"),
+         "trusted: vf/ref/llcp_ref.py (independent LLCP reader); empty vs absent SN/ECPK/RN treated as equal", "DESIGN.md 3/C11, 7.2-7.6"),
  "C12": ("fault_enumeration", "block-level fault-script enumeration against an ISO/IEC 14443-4 PICC-rule card model; execution-log oracle (at most once), response equality, frame-size wire monitor",
          "Real Type4A/4B tags (real RATS/ATTRIB) exchange echo APDUs with unique ids with a card model that logs executions; fault scripts {lose/corrupt command or response} exhaustive for <=2 (thorough 3) faults, WTX at every position, lengths around n*(FSC-3), FSCI 0-8, FWI 0-14.",
-         "trusted: vf/sim/t4t.py card model (PICC rules of ISO 14443-4 7.5.4)", "DESIGN.md 3/C12"),
+         "trusted: vf/sim/t4t.py card model (PICC rules of ISO 14443-4 7.5.4)", "DESIGN.md 3/C12, 7.2-7.6"),
  "C13": ("fault_enumeration", "fault injection at every host command of an exchange on real drivers over chipset simulators; outcome-class oracle (data | CommunicationError subclass | IOError)",
          "Each real driver (pn531/532/533, rcs956, acr122, arygon, rcs380, udp) is created through its own init() on a simulated transport, brought into each target kind through real sense/listen, then every (host command k x status byte / status word / host-link fault) cell is executed.",
-         "trusted: chipset simulators vf/sim/chipsets/*.py (conformance self-test replays the repository's literal transcripts), vf/sim/fakenet.py", "DESIGN.md 3/C13"),
+         "trusted: chipset simulators vf/sim/chipsets/*.py (conformance self-test replays the repository's literal transcripts), vf/sim/fakenet.py", "DESIGN.md 3/C13, 7.2-7.6"),
  "C14": ("exploration", "independent frame validators on every written host frame; 'accepted implies valid' oracle over mutated responses; bitwise ISO 14443-3 CRC reference",
          "All command codes x payload lengths are written through the real Chipset.command/ccid/Frame code and validated; valid responses are mutated (bit flips, truncation, extension, substitution) and must be rejected with IOError when invalid; CRC_A/B compared exhaustively for short messages.",
-         "trusted: vf/ref/frames.py, vf/ref/port100_frames.py, vf/ref/crc.py (Annex B vectors)", "DESIGN.md 3/C14"),
+         "trusted: vf/ref/frames.py, vf/ref/port100_frames.py, vf/ref/crc.py (Annex B vectors)", "DESIGN.md 3/C14, 7.2-7.6"),
  "C15": ("exploration", "lock-discipline monitor (owner-tracking lock + recording device proxy), call-site accounting via ast + caller frames, prober threads, thread stress with yield injection",
          "Every driver call made through every public entry point must be made by the owner of the frontend lock, must not overlap another driver call and must not run on a closed device; all syntactic self.device call sites must be observed or the run is inconclusive.",
-         "trusted: the proxy/lock wrappers in vf/props/c15.py; stress schedules are sampled", "DESIGN.md 3/C15"),
+         "trusted: the proxy/lock wrappers in vf/props/c15.py; stress schedules are sampled", "DESIGN.md 3/C15, 7.2-7.6"),
  "C16": ("fault_enumeration", "fault injection at every command position x error kind x burst 1..4 x {command lost, response lost} on simulated tags; result/memory/answered-command-sequence oracle",
          "Every tag operation of every simulated product is first run fault free, then with a burst at each position: within the retry budget result, final memory and the sequence of answered commands must equal the reference; beyond it only TagCommandError with matching errno or the documented None/False.",
-         "trusted: tag models; lenient tag behaviour on retransmissions (stated in ASSUMPTIONS)", "DESIGN.md 3/C16"),
+         "trusted: tag models; lenient tag behaviour on retransmissions (stated in ASSUMPTIONS)", "DESIGN.md 3/C16, 7.2-7.6"),
  "C17": ("exploration", "reference address-table model compared after every operation of random/bounded-exhaustive socket histories on two real LLCs in lock-step; structural invariant monitor",
          "bind/listen/connect/accept/sendto/recvfrom/resolve/close histories with arbitrary names and addresses; every outcome class (address range or errno set) is compared with vf/ref/addr_model.py; datagrams and connect-by-name carry tokens identifying the reached socket.",
-         "trusted: vf/ref/addr_model.py; errno classes only where the documentation is unambiguous", "DESIGN.md 3/C17"),
+         "trusted: vf/ref/addr_model.py; errno classes only where the documentation is unambiguous", "DESIGN.md 3/C17, 7.2-7.6"),
  "C18": ("exploration", "trace automaton over the callback log + return-value table from the docstring + driver-call log monitor (mute/sense order, stale targets) on a simulated world device and on the real driver classes",
          "connect() is run over option dictionaries x environments x terminate() times; sense()/exchange() over mixed target lists; oracles are the documented callback order/counts, return values, promptness in driver calls on a virtual clock, field off after nothing found, no stale target.",
-         "trusted: vf/sim/world.py; only what the docstrings state is demanded", "DESIGN.md 3/C18"),
+         "trusted: vf/sim/world.py; only what the docstrings state is demanded", "DESIGN.md 3/C18, 7.2-7.6"),
  "C20": ("fault_enumeration", "man-in-the-middle enumeration on the simulated air (every single bit of every response, substitutions, replays) against tag models with an independently written key/MAC computation; soundness oracles on authenticate/protect/read_with_mac/write_with_mac",
          "Real FeliCa Lite/Lite-S, NTAG21x, Ultralight EV1/C tag classes authenticate, protect and read/write with MAC against models holding keys; True only if the model holds key(password) and nothing deciding was tampered; data returned only if byte-identical to the model's blocks; a tampered covered field must be rejected.",
-         "trusted: vf/ref/felica_mac.py, tag models in vf/sim/t2t.py and t3t.py; key equality modulo DES parity bits", "DESIGN.md 3/C20"),
+         "trusted: vf/ref/felica_mac.py, tag models in vf/sim/t2t.py and t3t.py; key equality modulo DES parity bits", "DESIGN.md 3/C20, 7.2-7.6"),
  "C19": ("exploration", "wire-vs-state oracle: announced values are read off the simulated air (independent ISO 18092 / PAX reader) and compared with what the other side then uses; frame-size and MIU wire monitors; exhaustive option grid in thorough",
          "Two complete real stacks (connect(llcp=...) over the real udp driver on an in-memory net) are activated over the option grid role x brs x lri x lrt x rwt x miu x lto x agf x lsc; send-miu/recv-lto/WKS/LSC/LR/bit rate must equal the peer's announcement and maximum-size traffic must stay within them.",
-         "trusted: vf/sim/fakenet.py (logical clock), the check's own frame reader", "DESIGN.md 3/C19"),
+         "trusted: vf/sim/fakenet.py (logical clock), the check's own frame reader", "DESIGN.md 3/C19, 7.2-7.6"),
 }
 PENDING_REASON = "check not built yet in this session (runtime-monitoring design in DESIGN.md section 3); not claimed until it runs silent and catches its mutants"
 def main():
